@@ -2,6 +2,7 @@ import NrDaemon.Model.Proc
 import NrDaemon.Gen.SwapTable
 import NrDaemon.Props.C07
 import NrDaemon.Lemmas.Ledger
+import NrDaemon.Lemmas.Containers
 /-!
   C02 — failed deliveries are retried only as specified, with bounded attempts.
   `Gen.Status.shouldSaveHarvestData` and `Gen.SwapTable.failedHarvest` are regenerated from the Go source.
@@ -189,3 +190,74 @@ theorem C02_attempts_bounded_all_histories (cap limit : Nat) (evs : List CatEven
   dsimp only
   rw [hl'] at a b
   exact ⟨a, b⟩
+
+/-! ## Metrics over all histories (`Model/GLedger.lean` with the metric-table container) -/
+
+theorem mergeG_failed (t : MTG) (k : MKey) (m : Metric) (g : List Contrib) : (t.mergeG k m g).failed = t.failed := by
+  unfold MTG.mergeG
+  split
+  · split <;> rfl
+  · rfl
+
+theorem foldG_failed (es : List (MKey × Metric × List Contrib)) (t : MTG) :
+    (es.foldl (fun acc e => acc.mergeG e.1 e.2.1 e.2.2) t).failed = t.failed := by
+  induction es generalizing t with
+  | nil => rfl
+  | cons e es ih => simp only [List.foldl_cons]; rw [ih, mergeG_failed]
+
+/-- **C02 (metrics: bounded attempts, all histories).**  In every history of contributions, harvests, acknowledgements,
+retryable and fatal failures of the metric category — any interleaving, any number of requests in flight, any table
+capacity — the failed-delivery counter of the current table and of every payload in flight never exceeds the attempt
+limit, so a metric payload is sent at most `limit + 1` times before it is given up. -/
+theorem C02_metric_attempts_bounded_all_histories (max limit : Nat) (evs : List (GEvent Contrib)) :
+    let s := (GM.init (mtCont max limit)).run (mtCont max limit) evs
+    s.cur.failed ≤ limit ∧ ∀ p ∈ s.inflight, p.failed ≤ limit := by
+  have step : ∀ (s : GM MTG Contrib) (ev : GEvent Contrib),
+      (s.cur.failed ≤ limit ∧ ∀ p ∈ s.inflight, p.failed ≤ limit) →
+      ((s.step (mtCont max limit) ev).cur.failed ≤ limit ∧ ∀ p ∈ (s.step (mtCont max limit) ev).inflight, p.failed ≤ limit) := by
+    intro s ev ⟨hc, hi⟩
+    cases ev with
+    | offer x =>
+      refine ⟨?_, hi⟩
+      simp only [GM.step, mtCont, MTG.offer]
+      rw [mergeG_failed]; exact hc
+    | harvest =>
+      simp only [GM.step]
+      split
+      · exact ⟨hc, hi⟩
+      · refine ⟨by simp [mtCont, MTG.new], ?_⟩
+        intro p hp
+        rcases List.mem_append.mp hp with hp | hp
+        · exact hi p hp
+        · simp at hp; subst hp; exact hc
+    | ack i =>
+      simp only [GM.step]
+      split
+      · exact ⟨hc, fun q hq => hi q (List.mem_of_mem_eraseIdx hq)⟩
+      · exact ⟨hc, hi⟩
+    | retry i =>
+      simp only [GM.step]
+      split
+      · rename_i p hp
+        refine ⟨?_, fun q hq => hi q (List.mem_of_mem_eraseIdx hq)⟩
+        simp only [mtCont, MTG.mergeFailed]
+        split
+        · exact hc
+        · rename_i hle
+          rw [foldG_failed]
+          simp only
+          omega
+      · exact ⟨hc, hi⟩
+    | fatal i =>
+      simp only [GM.step]
+      split
+      · exact ⟨hc, fun q hq => hi q (List.mem_of_mem_eraseIdx hq)⟩
+      · exact ⟨hc, hi⟩
+  have key : ∀ (evs : List (GEvent Contrib)) (s : GM MTG Contrib),
+      (s.cur.failed ≤ limit ∧ ∀ p ∈ s.inflight, p.failed ≤ limit) →
+      ((s.run (mtCont max limit) evs).cur.failed ≤ limit ∧ ∀ p ∈ (s.run (mtCont max limit) evs).inflight, p.failed ≤ limit) := by
+    intro evs
+    induction evs with
+    | nil => intro s h; exact h
+    | cons e es ih => intro s h; exact ih _ (step s e h)
+  exact key evs _ ⟨by simp [GM.init, mtCont, MTG.new], by simp [GM.init]⟩
